@@ -235,6 +235,22 @@ func checkQuantifier(r *Run, prog *Program, a *Anchors, pfx string) {
 					}
 					base, parts := appendChain(sm.St, ev.Args[2])
 					okCopy := base != nil && base.IsNil() && len(parts) >= 1 && parts[0].Args[1].Key() == pOpt.Key()
+					if !okCopy && base != nil && base.K == sFresh {
+						// make([]Option, len(opt), …) + copy(innerOpt, opt): the other spelling of a fresh copy
+						if mk, isMk := base.V.(*ssa.MakeSlice); isMk {
+							lenOK := ps.sym(sm.St, mk.Len).Key() == (&Sym{K: sLen, A: pOpt}).Key()
+							copied := false
+							for _, e2 := range sm.Events() {
+								if isBuiltinCall(&e2, "copy") && len(e2.Args) == 2 && e2.Args[0].Key() == base.Key() && e2.Args[1].Key() == pOpt.Key() {
+									copied = true
+								}
+							}
+							if lenOK && copied {
+								okCopy = true
+								parts = append([]Event{{}}, parts...) // keep the indexing below: parts[1:] are the bindings
+							}
+						}
+					}
 					if !okCopy {
 						probs = append(probs, fmt.Sprintf("iteration %d: the options handed to the body are not a fresh copy of the incoming options followed by the new bindings (base %s)", n, shortKey(base)))
 						continue
@@ -337,6 +353,9 @@ func checkBindings(prog *Program, sm *Summary, wlv *ssa.Function, pExpr, v *Sym,
 						}
 					}
 				}
+				if isKeyString(sm.St, part, v, n) {
+					okKey = true // keys[i].String(): the key type is exactly string on this path
+				}
 				if !okKey {
 					probs = append(probs, "map alias: the last part is not this iteration's key: "+shortKey(part))
 				}
@@ -359,6 +378,9 @@ func checkBindings(prog *Program, sm *Summary, wlv *ssa.Function, pExpr, v *Sym,
 					if ka := symArgs(sm.St, ic); len(ka) == 1 && isSortedKeyOf(sm.St, ka[0], v, n) {
 						okKey = true
 					}
+				}
+				if val.K == sMkIface && isKeyString(sm.St, val.A, v, n) {
+					okKey = true
 				}
 				if !okKey {
 					probs = append(probs, "map key binding: the value is not this iteration's key: "+shortKey(val))
@@ -413,6 +435,16 @@ func isDecimalOf(st *pstate, part *Sym, n int64) bool {
 	return false
 }
 
+// isKeyString: s = keys[n].String() for keys = v.MapKeys().
+func isKeyString(st *pstate, s, v *Sym, n int64) bool {
+	fn, _ := calleeOfSym(s)
+	if !isReflectMethod(fn, "String") {
+		return false
+	}
+	a := symArgs(st, s)
+	return len(a) == 1 && isSortedKeyOf(st, a[0], v, n)
+}
+
 // isSortedKeyOf: key is keys[n] where keys = v.MapKeys() (possibly sorted in place).
 func isSortedKeyOf(st *pstate, key, v *Sym, n int64) bool {
 	return isMapKeyOf(st, key, v, n)
@@ -423,6 +455,7 @@ func checkMapKeyGuard(r *Run, prog *Program, a *Anchors, pfx string) {
 	fn := a.CollEval
 	ps := NewPathSim(prog)
 	ps.maxVisits = 2
+	ps.Inline = func(c *ssa.Function) bool { return bexprHelper(prog, a, c) && !strings.HasPrefix(c.Name(), "With") }
 	ps.Model = func(ev *Event) *Sym {
 		if ev.Callee == a.GetValue {
 			return &Sym{K: sTuple, Kids: []*Sym{{K: sOpaque, V: ev.Instr.Value(), Str: "collection"}, {K: sConst, C: constant.MakeBool(true)}, nilSym()}}
